@@ -177,7 +177,7 @@ Proof.
   { intros i x Hx q Hq. destruct (H10 q Hq) as [Hlt Hph]. split; [exact Hlt|].
     unfold fupd. destruct (Nat.eqb q i) eqn:E; [|exact Hph].
     apply Nat.eqb_eq in E. subst q. rewrite Hx. exact Hph. }
-  unfold env_step in H. destruct a as [| | | |r|r|r|r c0|r c0|r|r]; try discriminate.
+  unfold env_step in H. destruct a as [| | | |r|r|r|r c0|r c0|r|r|r]; try discriminate.
   all: destruct (get_run s r) as [x|] eqn:Er; try discriminate;
     pose proof (get_run_some _ _ _ Er) as Hx; subst x;
     assert (Hlt : r < s_next s) by (unfold get_run in Er; destruct (r <? s_next s) eqn:E; [apply Nat.ltb_lt; exact E|discriminate]);
@@ -1284,7 +1284,8 @@ Proof.
     destruct (r_phase (s_runs s i)) eqn:Ep; try discriminate.
     destruct (r_started (s_runs s i)); [|discriminate].
     rewrite Hv in H. simpl arms_of in H.
-    destruct (enters_recovery v1_arms (reason_of c (r_kill (s_runs s i))) (flags_of c s (s_runs s i))) eqn:Ee.
+    set (rs := if late_read c (s_runs s i) ch then RNil else reason_of c (r_kill (s_runs s i))) in H.
+    destruct (enters_recovery v1_arms rs (flags_of c s (s_runs s i))) eqn:Ee.
     + inversion H; subst; clear H.
       apply (clean_move_Inv s i CWait CBackoff Recovering HI Hc eq_refl); [discriminate| |discriminate|exact I].
       unfold clean_ok. simpl. repeat split; auto.
@@ -1430,6 +1431,7 @@ Proof.
   - eapply env_step_Inv; eauto.
   - eapply env_step_Inv; eauto.
   - eapply env_step_Inv; eauto.
+  - eapply env_step_Inv; eauto.
 Qed.
 
 (* an interleaving in which no Start takes its status check while the status is Recovering *)
@@ -1469,7 +1471,7 @@ Proof.
     destruct (c_proc c && negb (onat_eqb (s_proc s) None)); [exact HG|].
     intros g Hg. destruct (c_proc c); simpl in Hg; rewrite Eg in Hg; discriminate.
   - exact HG.
-  - destruct ch as [|[|ch]]; try destruct (c_proc c); exact I.
+  - destruct ch as [|[|[|ch]]]; try destruct (c_proc c); try (match goal with |- context [existsb ?f ?l] => destruct (existsb f l) end); exact I.
   - destruct (get_run s r); [|exact I]. destruct ch; [destruct (s_guard s)|]; exact I.
   - destruct ch; exact I.
   - destruct (get_run s r) as [x|] eqn:E; [|exact I]. apply get_run_some in E. subst x.
@@ -1590,6 +1592,12 @@ Proof.
     all: intros g Hg; simpl in *; destruct (HG g Hg) as [A B]; (split; [|exact B]); unfold fupd;
          (destruct (Nat.eqb g r) eqn:E; [|exact A]); apply Nat.eqb_eq in E; subst g;
          rewrite A in *; discriminate.
+  - (* AConflict *)
+    unfold env_step in H; destruct (get_run s r) as [x|] eqn:Er; try discriminate;
+       assert (Hlt : r < s_next s) by (unfold get_run in Er; destruct (r <? s_next s) eqn:E; [apply Nat.ltb_lt; exact E|discriminate]);
+       apply get_run_some in Er; subst x;
+       split_hyp H; try discriminate; inversion H; subst; clear H; bools.
+    apply GG_upd_same; [exact HG|reflexivity].
 Qed.
 
 Theorem run_Inv_GG c acts : c_engine c = V1 ->
